@@ -49,7 +49,7 @@ pub open spec fn wrapped(body: Expr, cs: Seq<Column>, n: int, body0: Expr) -> bo
 }
 
 // ---- head of compile_rows: the two base cases of match compilation ----
-#[verifier::external_body] pub struct CoreExpr { _p: u64 }           // core::Expr
+pub type CoreExpr = core::Expr;                                       // core::Expr (extracted above, in `mod core`)
 #[verifier::external_body] pub struct GlobalTypeEnv { _p: u64 }
 #[verifier::external_body] pub struct Gensym { _p: u64 }
 #[verifier::external_body] pub struct Diagnostics { _p: u64 }
@@ -66,4 +66,48 @@ pub fn compile_rows_rest(genv: &GlobalTypeEnv, gensym: &Gensym, diagnostics: &mu
 // what move_variable_patterns (verified above) does to one row
 pub open spec fn moved(o: Row, n: Row) -> bool {
     n.columns@ == kept_cols(o.columns@, o.columns@.len() as int) && wrapped(n.body, o.columns@, o.columns@.len() as int, o.body)
+}
+
+// ---- compile_bool_case: splitting the rows on a boolean scrutinee variable ----
+pub struct Variable { pub name: String, pub ty: Ty }                  // compile_match::Variable (extracted text would be identical; only read here)
+pub uninterp spec fn var_core(v: Variable) -> core::Expr;
+impl Variable { #[verifier::external_body] pub fn to_core(&self) -> (r: core::Expr) ensures r == var_core(*self) { unimplemented!() } }
+impl Prim {
+    pub uninterp spec fn bool_of(&self) -> Option<bool>;
+    #[verifier::external_body] pub fn as_bool(&self) -> (r: Option<bool>) ensures r == self.bool_of() { unimplemented!() }
+}
+pub uninterp spec fn ebool_spec(b: bool) -> core::Expr;
+#[verifier::external_body] pub fn core_ebool(value: bool) -> (r: core::Expr) ensures r == ebool_spec(value) { unimplemented!() }
+#[verifier::external_body] pub fn first_row_ty(rows: &Vec<Row>) -> (r: Ty) { unimplemented!() }    // rows.first().map(|r| r.get_ty()).unwrap_or(Ty::TUnit)
+impl VClone for Row { #[verifier::external_body] fn vclone(&self) -> (r: Self) { unimplemented!() } }
+// the recursive call: the decision tree for a sub-matrix, as an uninterpreted function of the rows
+pub uninterp spec fn rows_core(rows: Seq<Row>, ty: Ty) -> core::Expr;
+#[verifier::external_body]
+pub fn compile_rows_rec(genv: &GlobalTypeEnv, gensym: &Gensym, diagnostics: &mut Diagnostics, rows: Vec<Row>, ty: &Ty, match_range: Option<TextRange>) -> (r: core::Expr)
+    ensures r == rows_core(rows@, *ty),
+{ unimplemented!() }
+#[verifier::external_body] pub fn unreached<T>() -> (r: T) requires false { unimplemented!() }
+
+// index of the row's FIRST column for variable v, if any
+pub open spec fn col_of(r: Row, v: Seq<char>, k: int) -> bool {
+    0 <= k < r.columns@.len() && r.columns@[k].var@ == v && forall|j: int| 0 <= j < k ==> (#[trigger] r.columns@[j]).var@ != v
+}
+pub open spec fn no_col(r: Row, v: Seq<char>) -> bool { forall|j: int| 0 <= j < r.columns@.len() ==> (#[trigger] r.columns@[j]).var@ != v }
+// what ONE row contributes to the sub-matrix for `v == side`: itself if it does not test v; itself minus the test if it tests
+// `v == side`; nothing if it tests the other value
+pub open spec fn bool_img(r: Row, v: Seq<char>, side: bool, o: Seq<Row>) -> bool {
+    ||| (no_col(r, v) && o.len() == 1 && o[0].body == r.body && o[0].columns@ == r.columns@)
+    ||| (exists|k: int| #[trigger] col_of(r, v, k) && (r.columns@[k].pat matches Pat::PPrim { value, ty: _ } && value.bool_of() == Some(side))
+            && o.len() == 1 && o[0].body == r.body && o[0].columns@ == r.columns@.remove(k))
+    ||| (exists|k: int| #[trigger] col_of(r, v, k) && (r.columns@[k].pat matches Pat::PPrim { value, ty: _ } && value.bool_of() == Some(!side)) && o.len() == 0)
+}
+// outs is, in order, the contributions of the first n rows: the RELATIVE ORDER OF ROWS IS KEPT (first match stays first)
+pub open spec fn bool_split(ins: Seq<Row>, n: int, v: Seq<char>, side: bool, outs: Seq<Row>) -> bool
+    decreases n,
+{
+    if n <= 0 || n > ins.len() { outs.len() == 0 }
+    else {
+        ||| (bool_img(ins[n - 1], v, side, Seq::<Row>::empty()) && bool_split(ins, n - 1, v, side, outs))
+        ||| (outs.len() >= 1 && bool_img(ins[n - 1], v, side, seq![outs.last()]) && bool_split(ins, n - 1, v, side, outs.drop_last()))
+    }
 }
